@@ -236,10 +236,11 @@ IsSolEcho(L, x)    == ~x.uns /\ L.repeat /\ Awaiting(L.sol, L, x.t)
 
 \* the reply to DISABLE_UNSOLICITED marks the moment the request took effect: an unsolicited
 \* fragment transmitted earlier (possibly earlier on this very line) is no longer awaited
-EndsUnsolWait(e, x) == ~x.uns /\ e.k = "rx" /\ e.fc = 21 /\ e.wf /\ x.seq = e.seq
+\* (a retransmitted DISABLE is not executed again and ends nothing)
+EndsUnsolWait(L, e, x) == ~x.uns /\ e.k = "rx" /\ e.fc = 21 /\ e.wf /\ x.seq = e.seq /\ ~L.repeat
 
 ApplyTx(L00, x, e, l) ==
-    LET L == IF EndsUnsolWait(e, x) THEN [L00 EXCEPT !.uns.active = FALSE] ELSE L00 IN
+    LET L == IF EndsUnsolWait(L00, e, x) THEN [L00 EXCEPT !.uns.active = FALSE] ELSE L00 IN
     IF IsUnsolRetry(L, x) THEN [L EXCEPT !.uns.t = x.t, !.uns.sends = @ + 1, !.sent = @ \cup {x.bid}]
     ELSE IF IsSolEcho(L, x) THEN [L EXCEPT !.sol.t = x.t, !.sol.sends = @ + 1, !.rd.pend = FALSE,
                                            !.sent = @ \cup {x.bid}]
